@@ -9,3 +9,7 @@ func init() {
 	delete(externals, "unsafe.String")
 	_ = unsafe.Pointer(nil)
 }
+
+func init() {
+	externals[utlsPath+".verifConcretizeU16"] = extVerifConcretize
+}
